@@ -86,6 +86,15 @@ def make_garbage(kind, genuine):
         except Exception:
             return cand
         return GARBAGE
+    if kind == "emptyval" and genuine and len(genuine) > 4:
+        # the genuine answer's three header octets followed by an open-type length of zero: a message with no content at all
+        import perdec
+        cand = genuine[:3] + b"\x00"
+        try:
+            perdec.decode("ngapType.NGAPPDU", "valueExt,valueLB:0,valueUB:2", cand)
+        except Exception:
+            return cand
+        return GARBAGE
     if kind == "idx3":
         # the root CHOICE has three alternatives in two bits: index 3 is no NGAP PDU, whatever follows
         import perdec
